@@ -73,6 +73,7 @@ where
             let res: &mut GLWECompressed<&mut [u8]> = &mut res.to_mut();
             let mut source_xa: Source = Source::new(seed_xa);
             let cols: usize = (res.rank() + 1).into();
+            assert_eq!(res.rank(), sk.to_ref().rank());
             assert!(
                 scratch.available() >= self.glwe_compressed_encrypt_sk_tmp_bytes(res),
                 "scratch.available(): {} < GLWECompressedEncryptSk::glwe_compressed_encrypt_sk_tmp_bytes: {}",
